@@ -195,4 +195,43 @@ theorem effect_implies_ante {w : World} {t : Tx} (h : t.tookEffect w) :
         | error e => simp [ha] at h
         | ok wa => exact ⟨tx, wa, rfl, ha⟩
 
+/-! ### decidable forms, for the examples in Props -/
+
+def samePeriodB (m k : Nat) (r : Int) : World → List Op → Bool
+  | _, [] => true
+  | w, o :: rest =>
+    (match sessionOf (step w o) m k with
+     | some s => decide (s.reset = r)
+     | none => false) && samePeriodB m k r (step w o) rest
+
+theorem samePeriodB_iff {m k : Nat} {r : Int} {w : World} {ops : List Op} :
+    samePeriodB m k r w ops = true → SamePeriod m k r w ops := by
+  induction ops generalizing w with
+  | nil => intro _; trivial
+  | cons o rest ih =>
+    intro h
+    simp only [samePeriodB, Bool.and_eq_true] at h
+    obtain ⟨h1, h2⟩ := h
+    refine ⟨?_, ih h2⟩
+    cases hs : sessionOf (step w o) m k with
+    | none => simp [hs] at h1
+    | some s => exact ⟨s, rfl, by simpa [hs] using h1⟩
+
+instance (m k : Nat) (ops : List Op) : Decidable (NoCreate m k ops) := by
+  unfold NoCreate; infer_instance
+
+def errOf {α : Type} : Except Err α → Option Err
+  | .ok _ => none
+  | .error e => some e
+
+def isOk {ε α : Type} : Except ε α → Bool
+  | .ok _ => true
+  | .error _ => false
+
+theorem tookEffect_of_ok {w : World} {t : Tx} (h : isOk (runTx w t).2 = true) : t.tookEffect w := by
+  right
+  cases hr : (runTx w t).2 with
+  | error e => simp [hr, isOk] at h
+  | ok u => cases u; rfl
+
 end GnoVerif.C16
